@@ -118,7 +118,7 @@ Proof.
     rewrite <- (deq_length _ _ Hf), <- (deq_length _ _ Hd), <- (deq_keys _ _ Hd).
     destruct (length (filter (fun kv => negb (inb (fst kv) i)) d) =? length d)%nat; [exact Hf|].
     destruct (subsetb i (keys d)); [|exact I].
-    cbn [odeq]. apply deq_app; [exact Hf|].
+    cbn [odeq]. apply deq_app; [|exact (deq_filter (fun c => negb (inb c o)) _ _ Hf)].
     assert (Hv : Forall2 oQeq (map (fun c => match lookup c d with Some v => v | None => None end) i)
                               (map (fun c => match lookup c d' with Some v => v | None => None end) i)).
     { clear -Hd. induction i as [|c i IH]; cbn; constructor; auto. apply deq_lookup_flat; exact Hd. }
